@@ -40,7 +40,15 @@ def main():
     except ImportError as e:
         print("no rules for %s: %s" % (prop, e))
         sys.exit(2)
-    info = mod.run(ctx)
+    try:
+        info = mod.run(ctx)
+    except Exception as e:   # fail closed: a shape of code the rules cannot walk is reported, not skipped
+        import traceback
+        tb = traceback.extract_tb(e.__traceback__)
+        at = "%s:%s" % (os.path.basename(tb[-1].filename), tb[-1].lineno) if tb else "?"
+        ctx.bad(prop + "-X", "checker-exception|%s" % type(e).__name__,
+                "the rules could not analyse this shape of the code (%s: %s at %s); no verdict for the obligations that follow" % (type(e).__name__, str(e)[:120], at), "")
+        info = {"explanation": "rule evaluation aborted by an internal error; reported fail-closed", "trusted": []}
     extra = dict(info.get("coverage") or {})
     if tier == "thorough":
         thorough(ctx, prop, repo, fl, g, extra)
